@@ -50,7 +50,7 @@ def mir_dump(verbose=True):
                 if out == verb and not verbose:
                     continue
                 # force a re-run of rustc even if cargo thinks the crate is fresh
-                env = dict(ENV, CARGO_TARGET_DIR=os.path.join(CACHE, 'mir-target'))
+                env = dict(ENV, CARGO_TARGET_DIR=os.path.join(CACHE, 'mir-target' if REPO == '/repo' else 'mir-target-' + hashlib.sha256(REPO.encode()).hexdigest()[:10]))
                 os.utime(os.path.join(REPO, 'visitor/src/lib.rs')) if False else None
                 cmd = ['cargo', '+nightly', 'rustc', '--offline', '--lib', '--', '-Zunpretty=mir', '-C', 'debug-assertions=off',
                        '-C', 'overflow-checks=on', '--cfg', 'mirdump_' + h[:8] + ('v' if extra else 'p')] + extra
@@ -69,14 +69,26 @@ def mir_dump(verbose=True):
 
 
 def e3_build():
-    """build the native driver against /repo's current tree; returns the binary path."""
+    """build the native driver against /repo's current tree; returns the binary path.
+    With VERIF_REPO pointing elsewhere (seed testing in a scratch worktree) a private copy of the driver crate and target dir is used."""
     tgt = os.path.join(CACHE, 'e3-target')
+    src = os.path.join(VERIF, 'e3')
+    if REPO != '/repo':
+        tag = hashlib.sha256(REPO.encode()).hexdigest()[:10]
+        tgt = os.path.join(CACHE, 'e3-alt-' + tag, 'target')
+        alt = os.path.join(CACHE, 'e3-alt-' + tag, 'e3')
+        os.makedirs(os.path.join(alt, 'src'), exist_ok=True)
+        with open(os.path.join(alt, 'Cargo.toml'), 'w') as f:
+            f.write(open(os.path.join(src, 'Cargo.toml')).read().replace('/repo/visitor', REPO + '/visitor'))
+        for fn in os.listdir(os.path.join(src, 'src')):
+            shutil.copy(os.path.join(src, 'src', fn), os.path.join(alt, 'src', fn))
+        src = alt
     with Lock('e3'):
         lock_src = os.path.join(REPO, 'Cargo.lock')
-        lock_dst = os.path.join(VERIF, 'e3', 'Cargo.lock')
+        lock_dst = os.path.join(src, 'Cargo.lock')
         if not os.path.exists(lock_dst) or open(lock_src).read() != open(lock_dst).read() and 'name = "e3"' not in open(lock_dst).read():
             shutil.copy(lock_src, lock_dst)
-        r = subprocess.run(['cargo', 'build', '--offline', '--quiet'], cwd=os.path.join(VERIF, 'e3'), env=dict(ENV, CARGO_TARGET_DIR=tgt),
+        r = subprocess.run(['cargo', 'build', '--offline', '--quiet'], cwd=src, env=dict(ENV, CARGO_TARGET_DIR=tgt),
                            capture_output=True, text=True)
         if r.returncode != 0:
             raise RuntimeError('e3 build failed:\n' + r.stderr[-3000:])
